@@ -60,7 +60,7 @@ theorem step_PL_gen {n p dim ri : Nat} {rows : List GRow} (k cc : Int) (hk : 0 <
       = true := by
   have hzr := hz ri hpr hri
   have hzp := hz p (Nat.le_refl _) hp
-  have h1 : rowAt (rows.map (scaleRow k (n + 1))) ri = scaleRow k (n + 1) (rowAt rows ri) := rowAt_map _ _ _ hri
+  have h1 : rowAt (rows.map (scaleRow k (n + 1))) ri = scaleRow k (n + 1) (rowAt rows ri) := rowAt_mapG _ _ _ hri
   rw [h1]
   generalize hR' : ({ scaleRow k (n + 1) (rowAt rows ri) with
       e := linearCombine (scaleRow k (n + 1) (rowAt rows ri)).e (rowAt rows p).e 1 (-cc) dim (n + 1) } : GRow) = R'
@@ -77,7 +77,7 @@ theorem step_PL_gen {n p dim ri : Nat} {rows : List GRow} (k cc : Int) (hk : 0 <
     rw [rowAt_set]
     by_cases h : i = ri
     · rw [if_pos ⟨h, by simpa using hri⟩, if_pos h]
-    · rw [if_neg (fun h' => h h'.1), if_neg h, rowAt_map _ _ _ hi]
+    · rw [if_neg (fun h' => h h'.1), if_neg h, rowAt_mapG _ _ _ hi]
   have hlen : ((rows.map (scaleRow k (n + 1))).set ri R').length = rows.length := by simp
   have hsk : k.sign = 1 := Int.sign_eq_one_of_pos hk
   refine ⟨⟨hlen, ?_, ?_, ?_, ⟨k, hk, ?_⟩, ?_, ?_⟩, ?_⟩
@@ -99,7 +99,7 @@ theorem step_PL_gen {n p dim ri : Nat} {rows : List GRow} (k cc : Int) (hk : 0 <
     rw [scaleRow_get]; split
     · rw [Int.sign_mul, hsk, mul_one]
     · rfl
-  · refine hom_iff_scale ri p k hk (-cc) hlen hri hp hne hl2 hl1 ?_ ?_ ?_ ?_
+  · refine hom_iff_scale ri p k hk (-cc) hlen hri hp hl2 hl1 ?_ ?_ ?_ ?_
     · intro i hi
       rw [hrow i hi]; split
       · rename_i h; rw [h]; exact hR'l
